@@ -125,6 +125,16 @@ func (e *env) directed() {
 				ensureV2Data(&ctrl)
 				ctrl.V2.Transactions = []types.V2Transaction{chaingen.CloneV2(t2)}
 				judge("renewal-alone-signed-by-the-contract-keys(control)", "", ctrl, "accept")
+				// the same signed renewal submitted against the twin contract (same keys and values, another ID)
+				rsub := chaingen.CloneV2(t2)
+				rsub.FileContractResolutions[0].Parent = y.Copy()
+				// the submitter funds the tax with an input of its own: only the input is signed anew, the renewal and
+				// new-contract signatures are the ones made for X
+				rsub.SiacoinInputs[0].SatisfiedPolicy = c.W.Satisfy(lock, cs.InputSigHash(rsub))
+				b3 := chaingen.CloneBlock(eb)
+				ensureV2Data(&b3)
+				b3.V2.Transactions = []types.V2Transaction{rsub}
+				judge("renewal-signed-for-another-contract-with-the-same-keys", fmt.Sprintf("a renewal signed by renter and host for contract %v was accepted as a renewal of contract %v (same keys and terms), which nobody signed", x.ID, y.ID), b3, "reject")
 				b2 := chaingen.CloneBlock(eb)
 				ensureV2Data(&b2)
 				b2.V2.Transactions = []types.V2Transaction{chaingen.CloneV2(t1), chaingen.CloneV2(t2)}
